@@ -398,6 +398,8 @@ def h_cmp(d: Decl, props):
                  '        assert!((a < b) == (ia < ib) && (a <= b) == (ia <= ib) && (a > b) == (ia > ib) && (a >= b) == (ia >= ib), "comparison operators agree");\n')
     if 'Ord' in d.derives and d.family != 'float':
         body += '        assert!(a.cmp(&b) == ia.cmp(&ib), "cmp agrees with the inner values");\n'
+    if 'Ord' in d.derives and d.family == 'float':
+        body += '        assert!(Some(a.cmp(&b)) == ia.partial_cmp(&ib), "cmp agrees with the comparison of the inner floats (incl. -0.0 vs 0.0)");\n'
     return Harness(d, 'comparisons', props, body, clause='PartialEq/PartialOrd/Ord of two obtainable values == the same on the inner values')
 
 
